@@ -56,7 +56,7 @@ for d in sorted(glob.glob('/verif/seeded/*-r4m*')):
     twin = m.get('twin_alarms', [])
     only = m.get('defect_only_alarms', [])
     caught = m.get('caught_by_rules', [])
-    if not twin and caught:
+    if not twin and (only or caught):
         silent += 1
         verdict = 'twin silent'
     elif only:
@@ -68,7 +68,7 @@ for d in sorted(glob.glob('/verif/seeded/*-r4m*')):
     restr, defect = DESC.get(mid, ('', ''))
     def fmt(l):
         return ', '.join(l) if l else '—'
-    reported = fmt(sorted(set(only))) if (twin and only) else (fmt(sorted(set(caught))) if not twin else '—')
+    reported = fmt(sorted(set(only)))
     rows.append('| %s | %s | %s | %s | %s |' % (mid, restr, defect, fmt(twin), reported))
 
 table = '| pair | restructuring | defect hidden in it | alarms on the twin | alarms only the defect raises |\n|---|---|---|---|---|\n' + '\n'.join(rows)
